@@ -36,7 +36,9 @@ ColIdx == 1..NCols
 
 \* right-hand side as the recurrence sees it
 Bn(s, j) == NormaliseRhs(s.B[j], s.mult[j])
-InitCols(s) == [j \in 1..Len(s.B) |-> Initialize(s.A, s.M, Bn(s, j), s.X0[j])]
+\* initial guess as the recurrence sees it
+X0n(s, j) == NormaliseX0(s.X0[j], s.mult[j])
+InitCols(s) == [j \in 1..Len(s.B) |-> Initialize(s.A, s.M, Bn(s, j), X0n(s, j))]
 
 Init == /\ si \in 1..NSys
         /\ k = 0
@@ -68,11 +70,14 @@ CatalogOK == SystemOK(S)
 ---------------------------------------------------------------------------
 (* what the code returns, and the oracles *)
 Out(j) == Returned(cols[j], S.mult[j])
-\* the start the recurrence effectively uses in un-normalised units: mult * x0  (x0 is not rescaled by the code)
-EffX0(j) == VScale(S.mult[j], S.X0[j])
+\* the start the recurrence effectively uses in un-normalised units: mult * (x0 / mult), i.e. the caller's x0
+\* (0 for a zero right-hand side, whose result is multiplied by mult = 0)
+EffX0(j) == VScale(S.mult[j], X0n(S, j))
 \* property oracle: zero for a zero right-hand side, else the minimiser over x0 + K_k
 Oracle(j) == IF VIsZero(S.B[j]) THEN VZero(N) ELSE CGOpt(S.A, S.M, S.B[j], S.X0[j], k)
 PropertyHolds(j) == VEq(Out(j), Oracle(j))
+\* THE PROPERTY on the model: what the code model returns is the oracle's iterate for the caller's x0
+PropertyOptimal == \A j \in ColIdx: PropertyHolds(j)
 
 \* r_k = b - A x_k   and   gamma_k = r_k^H M r_k
 ResidualInv == \A j \in ColIdx:
@@ -98,6 +103,9 @@ SafeDivBenign == \A j \in ColIdx: cols[j].sd
 \* normalising the right-hand side and rescaling the result changes nothing when x0 = 0
 Equivariance == \A j \in ColIdx:
     (VIsZero(S.X0[j]) /\ ~S.eqv[j]) => VEq(Out(j), RecK(S.A, S.M, S.B[j], S.X0[j], k).x)
+\* ... and for any x0 the normalised run is the un-normalised run started from the caller's x0 (non-zero rhs)
+EquivarianceX0 == \A j \in ColIdx:
+    (~S.eqv[j] /\ ~VIsZero(S.B[j])) => VEq(Out(j), RecK(S.A, S.M, S.B[j], S.X0[j], k).x)
 \* x(alpha b) = alpha x(b) from x0 = 0: on the oracle, and on the recurrence as coded (|alpha| rational)
 Alphas == IF S.cplx THEN {Q(-2, 0, 1), Q(0, 1, 1), Q(1, 0, 2)} ELSE {Q(-2, 0, 1), Q(1, 0, 2)}
 AbsQ(a) == IF a.n[2] = 0 THEN Q(Abs(a.n[1]), 0, a.d) ELSE Q(Abs(a.n[2]), 0, a.d)   \* members of Alphas only
